@@ -71,6 +71,10 @@ def sh(cmd, **kw):
 
 def main():
     sel = sys.argv[1:]
+    start = None
+    if sel and sel[0].startswith("--from="):
+        start = sel[0][7:]
+        sel = sel[1:]
     if not os.path.isdir(WT):
         r = sh("git -C /repo worktree add -q --detach %s HEAD" % WT)
         if r.returncode:
@@ -79,6 +83,10 @@ def main():
     out_root = "/tmp/selfmut"
     os.makedirs(out_root, exist_ok=True)
     for mid, props, f, old, new in M:
+        if start:
+            if mid != start:
+                continue
+            start = None
         if sel and not any(x in mid for x in sel):
             continue
         sh("git -C %s checkout -- ." % WT)
